@@ -268,6 +268,13 @@ class MutSummary:
                 if a.place is None:
                     continue
                 ty = body.locals[a.place.local]
+                if "{closure" in ty["s"] and a.place.is_local():
+                    # a closure that captured a `&mut` into parameter storage and writes through it (`.map_err(|i| self.ids.insert(i, id))`)
+                    hit = self._closure_arg_mutation(body, a.place.local, through_params)
+                    if hit:
+                        out.append({"pos": pos, "kind": "call", "what": "call of %s with a closure that writes through its capture" % (c.def_args or c.name), "params": hit, "line": t.line, "callee": c, "term": t, "arg": ai})
+                        break
+                    continue
                 if not is_mut_capable(ty):
                     continue
                 roots = self.rd.roots(body, a.place.local)
@@ -280,6 +287,34 @@ class MutSummary:
                     out.append({"pos": pos, "kind": "call", "what": "call of %s" % (c.def_args or c.name), "params": ps, "line": t.line, "callee": c, "term": t, "arg": ai})
                     break
         return out
+
+    def _closure_arg_mutation(self, body, local, through_params):
+        """parameters of `body` whose storage a closure value (held in `local`) mutates through a captured `&mut`"""
+        ps = set()
+        seen = set()
+        work = [local]
+        defs = self.rd.pv.defs(body)
+        while work:
+            l = work.pop()
+            if l in seen:
+                continue
+            seen.add(l)
+            for kind, pos, d in defs.get(l, []):
+                if kind != "assign":
+                    continue
+                rv = d.rv
+                if rv["k"] == "use" and rv["op"].place is not None:
+                    work.append(rv["op"].place.local)
+                elif rv["k"] == "agg" and rv.get("agg") == "closure":
+                    cb = self.prog.bodies.get(rv["closure"])
+                    if cb is None or not self.mutates(cb, 1):
+                        continue
+                    for o in rv["ops"]:
+                        if o.place is not None and is_mut_capable(body.locals[o.place.local]):
+                            ps |= {r[1] for r in self.rd.roots(body, o.place.local) if r[0] == "param"}
+        if through_params is not None:
+            ps &= set(through_params)
+        return ps
 
     def call_mutates(self, callee, argindex):
         tgt = None
@@ -1021,11 +1056,11 @@ def kernel(prog, body, ignore_callees=()):
 
 
 def split_columns(body, pv):
-    """`next()` calls on a str split iterator, numbered by dominance: {bb: column index}"""
+    """`next()` / `nth(k)` calls on a str split iterator, numbered by dominance: {bb: column index}"""
     nexts = []
     for bi, t in body.calls():
         c = t.callee
-        if c.method == "next" and c.trait == "std::iter::Iterator" and re.search(r"std::str::(Split|SplitN|SplitWhitespace|RSplit)", c.def_args or ""):
+        if c.method in ("next", "nth") and c.trait == "std::iter::Iterator" and re.search(r"std::str::(Split|SplitN|SplitWhitespace|RSplit)", c.def_args or ""):
             root = None
             if t.args and t.args[0].place is not None:
                 # root local of the iterator
@@ -1043,16 +1078,24 @@ def split_columns(body, pv):
                     else:
                         break
                 root = l
-            nexts.append((bi, root))
+            # columns skipped before the one returned: nth(k) skips k
+            skip = 0
+            if c.method == "nth":
+                skip = t.args[1].int_value() if len(t.args) > 1 and t.args[1].kind == "const" else None
+            nexts.append((bi, root, skip))
     cols = {}
-    for bi, root in nexts:
-        cols[bi] = len([1 for bj, r2 in nexts if r2 == root and bj != bi and body.dominates(bj, bi)])
+    for bi, root, skip in nexts:
+        before = [s2 for bj, r2, s2 in nexts if r2 == root and bj != bi and body.dominates(bj, bi)]
+        if skip is None or any(s2 is None for s2 in before):
+            cols["incomplete"] = True  # a computed skip: the column number is not a constant
+            continue
+        cols[bi] = sum(s2 + 1 for s2 in before) + skip
     return cols
 
 
 def columns_of(body, atoms, cols):
-    """column indices a value was read from (call atoms of numbered next() calls in `body`)"""
-    return {cols[a[4]] for a in atoms if a[0] == "call" and a[3] == body.id and a[4] in cols and a[1].endswith("::next")}
+    """column indices a value was read from (call atoms of numbered next() / nth() calls in `body`)"""
+    return {cols[a[4]] for a in atoms if a[0] == "call" and a[3] == body.id and a[4] in cols and (a[1].endswith("::next") or a[1].endswith("::nth"))}
 
 
 def user_root_locals(body, pv, op, stop=None):
